@@ -385,8 +385,9 @@ func init() {
 		}
 		for i := 0; i < n; i++ {
 			restrictExportable = i%5 != 0
+			explicitBitmapLength = true
 			g := genMsg(r, false)
-			restrictExportable = false
+			restrictExportable, explicitBitmapLength = false, false
 			emit(L(A("specjson.export"), g.term))
 			// the same specification with the tag length of every encoded tag left out (Tag.Enc set, Tag.Length 0)
 			if z, changed := zeroTagLen(g.term); changed {
